@@ -17,7 +17,7 @@ def run(tier, replay):
     keys = set((e["e"], e["alg"], len(e.get("file", e.get("before", []))), e.get("pos", 48)) for e in events)
     nrej = sum(1 for e in events if e["e"] == "cmphmac" and e["res"] == 0)
     res.cov.update({"evaluations": len(events), "distinct_nontrivial": len(keys),
-                    "rule": "one case = (call kind gethmac/cmphmac/writeFileHmac, hash mode, file length, stream position 0/5/48); message lengths 0..%d so the inner input 64+len and the outer input 64+hlen fall in every residue class mod 64; keys random, all-zero and all-0xFF; refill sizes 1-3 units. cmphmac is called with the correct tag, with each of its hlen bytes altered in turn and with a change only beyond hlen (%d rejecting calls). TLC recomputes every tag with spec/HMAC.tla." % (maxlen, nrej),
+                    "rule": "one case = (call kind gethmac/cmphmac/writeFileHmac, hash mode, file length, stream position 0/5/48, plus positions 255..257, 300, 1000, 4103 and 65539 for which the tag of the region starting at pos mod 256 / mod 65536 must also be REJECTED); message lengths 0..%d so the inner input 64+len and the outer input 64+hlen fall in every residue class mod 64; keys random, all-zero and all-0xFF; refill sizes 1-3 units. cmphmac is called with the correct tag, with each of its hlen bytes altered in turn and with a change only beyond hlen (%d rejecting calls). TLC recomputes every tag with spec/HMAC.tla." % (maxlen, nrej),
                     "traces_validated_against_impl": len(events), "validator_states": st["states"], "exhaustive": False})
     for e in events[:: max(1, len(events) // 4)][:4]:
         res.sample(wv.shorten(e))
